@@ -62,6 +62,13 @@ theorem sda_changes_under_scl_high_only_for_start_stop (c : Config) (h : List In
         (s.fsm = .stopSdaH ∧ (step c s i).sdaO = true) :=
   fun hch => sda_change_step c _ i (sclLowInSetup_reachable c h) hch
 
+/-- SDA and SCL drives never change at the same clock edge (so an SDA change made while SCL is held
+low keeps at least one timer period of set-up before SCL is released, and vice versa). -/
+theorem sda_and_scl_never_change_together (c : Config) (s : State) (i : In)
+    (hch : (step c s i).sdaO ≠ s.sdaO) : (step c s i).sclO = s.sclO := by
+  cases hf : s.fsm <;> simp only [step, hf, sclL, sclH, stbX, id] at hch ⊢ <;>
+    (repeat' split at hch) <;> simp_all
+
 def startState : Fsm → Bool
   | .startSclL | .startSdaH | .startSclH | .startSdaL => true
   | _ => false
